@@ -19,8 +19,10 @@ their serialisation).
 
 The cluster lock (excluded by the property) is not modelled. Instances whose function object has been
 replaced since they were made are not part of "the resulting program" (`live`).
-Every definition the events create gets a hash rule (`Def.trackable`): variables of unsupported types
-and functions of other packages are outside the property's program class.
+Every definition the events create gets a hash rule (`Def.trackable`) or is a plain function of another package
+(`defForeign`): no rule is kept for such a function, but the symbol bound to it is watched (fix F27), so replacing a
+memento function by a function of another package and back, or re-binding an alias of such a function, is inside the
+model. Variables of unsupported types are outside the property's program class.
 No assumption on the hash function `H` is needed.
 -/
 namespace Memento.VersionCache
@@ -48,13 +50,15 @@ theorem query_eq_fresh_any_order (H : Ser → List Char) (evs : List Ev) (i : Na
   exact query_fresh (inv_run (inv_init H) evs) hi hlive
 
 /-- the criterion the cache relies on, stated on its own: if none of the rules an instance recorded reports a
-    change, its recorded version is the fresh version (whatever happened to the generation counter) -/
+    change and none of the symbols it watches without a rule (functions of other packages, fix F27) was re-bound, its
+    recorded version is the fresh version (whatever happened to the generation counter) -/
 theorem unchanged_rules_imply_fresh (H : Ser → List Char) (evs : List Ev) (inst : Inst) (c : List Char) :
     let s := run H {} evs
     inst ∈ s.insts → live s inst → inst.cver = some c → inst.snaps.any (didChange s.sym) = false →
+    inst.watch.any (watchChanged s.sym) = false →
     version H (progOf s.sym) id inst.name = c := by
-  intro s hmem hlive hc hnc
-  exact no_change_version (inv_run (inv_init H) evs) hmem hlive hc hnc
+  intro s hmem hlive hc hnc hnw
+  exact no_change_version (inv_run (inv_init H) evs) hmem hlive hc hnc hnw
 
 /-- a query changes no binding: the program, and therefore every fresh version, is the same afterwards
     (so interleaving queries at every position cannot influence later answers) -/
@@ -95,6 +99,23 @@ example : (step exH (run exH {} exEvs) (.query 1)).2 = (step exH (run exH {} exE
 example : (step exH (run exH {} exEvs) (.query 2)).2 = (step exH (run exH {} exEvs) (.query 0)).2 := by decide +kernel
 /-- and the version did change with the variable -/
 example : (step exH (run exH {} (exEvs.take 3)) (.query 0)).2 ≠ (step exH (run exH {} exEvs) (.query 0)).2 := by
+  decide +kernel
+
+/-! ### functions of other packages (the histories of the former known finding K5)
+
+`m0` calls itself; its name is bound to a function of another package; then the identical `m0` is defined again (its
+decorator runs while the name is still bound to the foreign function, so no rule is made for the recursive reference — the
+watched symbol is what notices the re-binding); queries in between. -/
+def exK5a : List Ev :=
+  [.defMemento 0 none 10 [0], .defMemento 1 none 11 [0], .query 0, .query 1, .defForeign 0 77, .query 1,
+   .defMemento 0 none 10 [0]]
+
+example : (step exH (run exH {} exK5a) (.query 2)).2 =
+    some (version exH [(0, .memento none 10 [0]), (1, .memento none 11 [0])] id 0) := by decide +kernel
+example : (step exH (run exH {} exK5a) (.query 1)).2 =
+    some (version exH [(0, .memento none 10 [0]), (1, .memento none 11 [0])] id 1) := by decide +kernel
+/-- while the name is bound to the foreign function the caller's version is another one (no rule for the callee) -/
+example : (step exH (run exH {} (exK5a.take 5)) (.query 1)).2 ≠ (step exH (run exH {} exK5a) (.query 1)).2 := by
   decide +kernel
 
 end Memento.VersionCache
